@@ -365,6 +365,10 @@ func (p *Protocol[EK]) Verify(statement *Statement, commitment *Commitment, chal
 		return proofs.ErrFailed.WithMessage("inconsistent input")
 	}
 
+	// The encryption only requires the modulus carried by a plaintext to be at most N, so the opened plaintexts
+	// are checked to be residues modulo N here (the nonces are checked by the encryption).
+	plaintextGroup := p.encryptionKey.PlaintextGroup()
+
 	var c []*paillier.Ciphertext
 	var w []*paillier.Plaintext
 	var r []*paillier.Nonce
@@ -377,6 +381,9 @@ func (p *Protocol[EK]) Verify(statement *Statement, commitment *Commitment, chal
 			r1i, okr1i := response.R1[i]
 			r2i, okr2i := response.R2[i]
 			if !okw1i || !okw2i || !okr1i || !okr2i || w1i == nil || w2i == nil {
+				return proofs.ErrVerificationFailed.WithMessage("verification failed")
+			}
+			if !plaintextGroup.Contains(w1i.Value()) || !plaintextGroup.Contains(w2i.Value()) {
 				return proofs.ErrVerificationFailed.WithMessage("verification failed")
 			}
 
@@ -398,6 +405,9 @@ func (p *Protocol[EK]) Verify(statement *Statement, commitment *Commitment, chal
 			ri, okri := response.Rj[i]
 			ji, okji := response.J[i]
 			if !okwi || !okri || !okji || wi == nil {
+				return proofs.ErrVerificationFailed.WithMessage("verification failed")
+			}
+			if !plaintextGroup.Contains(wi.Value()) {
 				return proofs.ErrVerificationFailed.WithMessage("verification failed")
 			}
 
